@@ -221,7 +221,7 @@ def gen_radius(ch, depth, budget):
     hp = _state["hp"]
     res = hp.nside2resol(2 ** depth)
     fmax = max(1.0, math.sqrt(budget / math.pi))
-    f = (0.05, 0.4, 1.0, 2.5, 6.0, 12.0, 25.0)[ch.draw("radius_f", 7)]
+    f = (0.05, 0.4, 1.0, 2.5, 6.0, 12.0, 25.0, 0.6 * fmax, fmax)[ch.draw("radius_f", 9)]
     return min(f, fmax) * res
 
 
@@ -357,7 +357,9 @@ class Machine:
         self.out = out
         self.min_depth = min_depth
         self.max_depth = max_depth
-        self.budget = budget
+        # swarm: the size scale of a history is a per-history knob (thresholds in the code under test, caches, must not
+        # stay on one side of every generated region)
+        self.budget = (budget, budget // 10, budget, budget * 6)[ch.draw("scale", 4)]
         self.slots = []
         self.trace = []
         self.dir = tempfile.mkdtemp(prefix="case-", dir=_state["tmp"])
@@ -821,7 +823,7 @@ class Machine:
     def op_write_reg(self):
         s = self._pick()
         if len(s.model) > 600:
-            return
+            return self.op_write_fits()
         path = self._path("reg")
         via = self.ch.draw("reg_via", 2)
         self.trace.append("#%d.write_reg()%s" % (self.slots.index(s), " via mim2reg" if via else ""))
